@@ -194,12 +194,13 @@ def main(argv=None):
                             'status': r['status']})
     # --- report ----------------------------------------------------------------------------
     rc = 0
-    os.makedirs(os.path.join(VERIF, 'replays', prop), exist_ok=True)
+    rdir = os.path.join(os.environ.get('VF_REPLAY_DIR') or os.path.join(VERIF, 'replays'), prop)
+    os.makedirs(rdir, exist_ok=True)
     seen_v = set()
     for v in viols:
         blob = json.dumps(v, sort_keys=True)
         h = hashlib.sha1(blob.encode()).hexdigest()[:12]
-        path = os.path.join(VERIF, 'replays', prop, h + '.json')
+        path = os.path.join(rdir, h + '.json')
         with open(path, 'w') as f:
             f.write(json.dumps(v, indent=1, sort_keys=True))
         key = (v['scenario'], v['clause'])
